@@ -1112,13 +1112,13 @@ void flatcc_json_printer_union_vector_field(flatcc_json_printer_t *ctx,
             ++types;
             type = __flatbuffers_utype_read_from_pe(types);
             print_char(',');
+            /* NONE elements, and elements of a type this schema does not know, have no other flush point. */
+            flatcc_json_printer_flush_partial(ctx);
             if (type != 0) {
                 ud.type = type;
                 ud.member = p;
                 pf(ctx, &ud);
             } else {
-                /* NONE elements have no other flush point. */
-                flatcc_json_printer_flush_partial(ctx);
                 print_null();
             }
         }
